@@ -264,6 +264,10 @@ func grammarReplay(c *core.Ctx, path string, gb *GrammarBind) int {
 
 // values with lists nested at every position, after earlier lists of the same document
 var nestedListQueryTexts = []string{
+	// the directives of a fragment definition are not constant: variables may stand in them, directly and nested
+	`fragment F on T @d(a: $v) { x }`, `fragment F on T @d(a: [1, {b: $v}]) @e(c: {k: [$w]}) { x }`, `fragment F($a: Int) on T @d(a: $a) { x @e(b: $a) }`,
+	// type references with non-null at every level
+	`query($a: [[Int]!], $b: [[[ID!]!]!]!, $c: [[Int!]]!, $d: [[[T]]!]) { f }`,
 	// a variable at every constant position, directly and nested (none is derivable), and the admissible neighbours
 	`query Q($a: Int @d(x: $b), $b: Int) { f }`, `query Q($a: Int = $b, $b: Int) { f }`, `query Q($a: [Int] = [$b]) { f }`, `query Q($a: Int @d(x: [$b])) { f }`,
 	`query Q($a: Int @d(x: {k: $b})) { f }`, `query Q($a: Int @d(x: 1, y: $a)) { f }`, `query Q($a: In = {k: $a}) { f }`, `query Q($a: Int = 1 @d(x: 2) @e(y: $a)) { f }`,
